@@ -76,7 +76,8 @@ const ruleText = "one run = one tape: a store kind (param), 2-3 (shard, replica)
 	"4-40 operations (SaveRaftState batches with appends / suffix overwrites by a newer term / state only / restoring snapshots, also several replicas per batch; " +
 	"SaveSnapshots, RemoveEntriesTo, CompactEntriesTo, RemoveNodeData, ImportSnapshot, SaveBootstrapInfo, close+reopen, Tan obsolete-file job) " +
 	"each followed by random IterateEntries(low, high, maxSize) / ReadRaftState / GetSnapshot / GetBootstrapInfo / ListNodeInfo queries compared with RefStore. " +
-	"mode=crash: the disk loses power before the k-th mutating file-system operation (enum=1: workloads of 3-9 operations derived from the run index _i, " +
+	"mode=crash: the disk loses power before the k-th mutating file-system operation (for Pebble only the operations of the calling goroutine and of its WAL writer are counted, " +
+	"and a CompactEntriesTo is only interrupted at its API boundary; inside a Tan close with more than one db, whose order is a Go map order, no torn tails are drawn; enum=1: workloads of 3-9 operations derived from the run index _i, " +
 	"every k and both the clean and the torn-tail variant are enumerated; enum=0: window and offset drawn from the tape, API boundary if the window is shorter, up to two crashes), " +
 	"the store is reopened and every replica must equal an admissible state (acknowledged state; for the replicas of the interrupted save: before or after). " +
 	"mode=ioerr / kverr: the k-th file-system operation / kv.IKVStore call fails; the call must fail, or what it acknowledged must survive a power cut. " +
